@@ -74,6 +74,9 @@ class FunctionalGroupRaw(HierarchyElementRaw):
             if not isinstance(dv_proxy, OdxLinkRef):
                 result.update(dv_proxy._build_odxlinks())
 
+        for variable_group in self.variable_groups:
+            result[variable_group.odx_id] = variable_group
+
         for parent_ref in self.parent_refs:
             result.update(parent_ref._build_odxlinks())
 
